@@ -493,37 +493,60 @@ def all_dags(n):
             yield names, [(names[i], names[j]) for i, j in sorted(es)]
 
 
-def sort_check(sortfn, names, edges, rng, n_orders=3):
+def all_cyclic_digraphs(n, self_loops=True):
+    """every digraph on SORT_NAMES[:n] that is NOT a DAG (a cycle or a self-loop)"""
     import networkx as nx
-    ref = None
+    names = SORT_NAMES[:n]
+    pairs = [(i, j) for i in range(n) for j in range(n) if self_loops or i != j]
+    for mask in range(1, 1 << len(pairs)):
+        es = [(names[i], names[j]) for k, (i, j) in enumerate(pairs) if mask >> k & 1]
+        G = nx.DiGraph(es)
+        if not nx.is_directed_acyclic_graph(G):
+            yield names, es
+
+
+def sort_check(sortfn, names, edges, rng, n_orders=3, cyclic=False):
+    """the clauses of the statement on one graph: a permutation of the node set, every edge (u, v) has u BEFORE v (reverse=True: AFTER v), the same
+    list for every insertion order.  cyclic=True: the graph has a cycle - `normal exit => topological` then means that it must NOT return normally
+    (NetworkXUnfeasible is the documented way out)"""
+    import networkx as nx
+    ref = {}
     for k in range(n_orders):
         ns, es = list(names), list(edges)
         if k:
             rng.shuffle(ns)
             rng.shuffle(es)
-        G = nx.DiGraph()
-        if k == 2:
-            G.add_edges_from(es)          # nodes enter in edge order
-            G.add_nodes_from(ns)
-        else:
-            G.add_nodes_from(ns)
-            G.add_edges_from(es)
-        try:
-            with native.time_limit(5):
-                r = sortfn(G)
-        except Exception as e:
-            return 'c02:sort-exception', '%s: %s on a DAG' % (type(e).__name__, str(e)[:120]), dict(nodes=ns, edges=[list(e_) for e_ in es])
-        if sorted(r) != sorted(names):
-            return 'c02:sort-not-a-permutation', 'result %s is not a permutation of the node set' % (r,), dict(nodes=ns, edges=[list(e) for e in es])
-        pos = {x: i for i, x in enumerate(r)}
-        for u, v in edges:
-            if pos[u] > pos[v]:
-                return 'c02:sort-not-topological', 'edge %s -> %s but %s comes later in %s' % (u, v, u, r), dict(nodes=ns, edges=[list(e) for e in es])
-        if ref is None:
-            ref = r
-        elif r != ref:
-            return ('c02:sort-insertion-order', 'same node and edge sets, different insertion order: %s vs %s' % (ref, r),
-                    dict(nodes=ns, edges=[list(e) for e in es], canonical_nodes=list(names), canonical_edges=[list(e) for e in edges]))
+        for rev in (False, True):
+            G = nx.DiGraph()
+            if k == 2:
+                G.add_edges_from(es)          # nodes enter in edge order
+                G.add_nodes_from(ns)
+            else:
+                G.add_nodes_from(ns)
+                G.add_edges_from(es)
+            inp = dict(nodes=ns, edges=[list(e_) for e_ in es])
+            if rev:
+                inp['reverse'] = True
+            if cyclic:
+                inp['cyclic'] = True
+            try:
+                with native.time_limit(5):
+                    r = sortfn(G, reverse=True) if rev else sortfn(G)
+            except Exception as e:
+                if cyclic and type(e).__name__ == 'NetworkXUnfeasible':
+                    continue
+                return 'c02:sort-exception', '%s: %s on a %s' % (type(e).__name__, str(e)[:120], 'cyclic graph' if cyclic else 'DAG'), inp
+            if sorted(r) != sorted(names):
+                return 'c02:sort-not-a-permutation', 'result %s is not a permutation of the node set' % (r,), inp
+            pos = {x: i for i, x in enumerate(r)}
+            for u, v in edges:
+                if (pos[u] <= pos[v]) if rev else (pos[u] >= pos[v]):
+                    return ('c02:sort-not-topological', 'edge %s -> %s but %s does not come %s %s in %s%s' % (u, v, u, 'after' if rev else 'before', v, r, ' (reverse=True)' if rev else ''), inp)
+            if rev not in ref:
+                ref[rev] = r
+            elif r != ref[rev]:
+                return ('c02:sort-insertion-order', 'same node and edge sets, different insertion order: %s vs %s' % (ref[rev], r),
+                        dict(inp, canonical_nodes=list(names), canonical_edges=[list(e) for e in edges]))
     return None
 
 
@@ -544,7 +567,22 @@ def run_sort(tier='quick', seed=0, first_failure_only=True):
                     break
         if failures and first_failure_only:
             break
-    return dict(name='sort-all-small-dags', bound='all DAGs with <= %d nodes over the names %s, 3 insertion orders each' % (nmax, SORT_NAMES[:nmax]),
+    # graphs WITH a cycle (replay vehicle of the proved clause `normal exit => topological`): they must not return normally
+    cmax = (3, True) if tier == 'quick' else (4, False)
+    if not (failures and first_failure_only):
+        for n, loops in ((k, True) for k in range(1, 4)) if tier == 'quick' else [(1, True), (2, True), (3, True), (4, False)]:
+            for names, edges in all_cyclic_digraphs(n, loops):
+                cases += 1
+                nontriv += 1 if len(edges) >= 2 else 0
+                f = sort_check(ex.nx_constant_topological_sort, names, edges, rng, n_orders=1, cyclic=True)
+                if f:
+                    failures.append(dict(signature=f[0], what=f[1], input=dict(probe='sort', **f[2])))
+                    if first_failure_only:
+                        break
+            if failures and first_failure_only:
+                break
+    return dict(name='sort-all-small-dags', bound='all DAGs with <= %d nodes over the names %s, 3 insertion orders each, reverse=False and reverse=True; all digraphs WITH a cycle on <= %d nodes%s '
+                '(must not return normally)' % (nmax, SORT_NAMES[:nmax], cmax[0], ' incl. self-loops' if cmax[1] else ' (self-loops up to 3 nodes)'),
                 rule='non-trivial = at least two edges', cases=cases, nontrivial=nontriv, failures=failures)
 
 
@@ -634,7 +672,8 @@ def replay_input(inp):
         return not [f for f in r['failures'] if f['signature'] == 'c02:exception']
     if probe == 'sort':
         ex = native.load_file_module('elfi/executor.py')
-        return sort_check(ex.nx_constant_topological_sort, inp.get('canonical_nodes', inp['nodes']), [tuple(e) for e in inp.get('canonical_edges', inp['edges'])], random.Random(0), 6) is None
+        return sort_check(ex.nx_constant_topological_sort, inp.get('canonical_nodes', inp['nodes']), [tuple(e) for e in inp.get('canonical_edges', inp['edges'])], random.Random(0),
+                          1 if inp.get('cyclic') else 6, cyclic=bool(inp.get('cyclic'))) is None
     if probe == 'rejection':
         return rejection_probe(elfi) is None
     if probe == 'submit':
